@@ -20,15 +20,19 @@ pub fn base_spec(workers: u32, rule: &str, assumptions: &[&str], timeout_s: u64)
 pub mod common;
 pub mod c01;
 pub mod c04;
+pub mod c05;
+pub mod c10;
 pub mod c14;
 pub mod c18;
 
-pub const ALL: &[&str] = &["C01", "C04", "C14", "C18"];
+pub const ALL: &[&str] = &["C01", "C04", "C05", "C10", "C14", "C18"];
 
 pub fn lookup(id: &str) -> Option<Prop> {
     match id {
         "C01" => Some(Prop { id: "C01", spec: c01::spec, run: c01::run, replay: c01::replay }),
         "C04" => Some(Prop { id: "C04", spec: c04::spec, run: c04::run, replay: c04::replay }),
+        "C05" => Some(Prop { id: "C05", spec: c05::spec, run: c05::run, replay: c05::replay }),
+        "C10" => Some(Prop { id: "C10", spec: c10::spec, run: c10::run, replay: c10::replay }),
         "C14" => Some(Prop { id: "C14", spec: c14::spec, run: c14::run, replay: c14::replay }),
         "C18" => Some(Prop { id: "C18", spec: c18::spec, run: c18::run, replay: c18::replay }),
         _ => None,
